@@ -25,6 +25,7 @@
 #include <unifex/tag_invoke.hpp>
 #include <unifex/unstoppable_token.hpp>
 #include <unifex/detail/atomic_intrusive_list.hpp>
+#include <unifex/detail/verif_hooks.hpp>
 
 #include <unifex/detail/prologue.hpp>
 
@@ -211,6 +212,7 @@ inline auto async_manual_reset_event::async_wait() noexcept {
 template <typename Receiver>
 void async_manual_reset_event::wait_raw_sender::_op<
     Receiver>::type::start() noexcept {
+  UNIFEX_VERIF_YIELD("event.v2.start_push");
   if (!evt_.waiters_.push_front_unless_latched(this)) {
     // Already signalled — complete via fast path.
     if (try_complete(this)) {
@@ -223,6 +225,7 @@ void async_manual_reset_event::wait_raw_sender::_op<
 template <typename Receiver>
 void async_manual_reset_event::wait_raw_sender::_op<
     Receiver>::type::stop() noexcept {
+  UNIFEX_VERIF_YIELD("event.v2.stop_remove");
   if (evt_.waiters_.try_remove(this)) {
     if (try_complete(this)) {
       unifex::set_done(std::move(receiver_));
